@@ -5,6 +5,8 @@ mod m_adapt;
 mod m_chain;
 #[cfg(eyeball_verif)]
 mod m_conc;
+#[cfg(eyeball_verif)]
+mod m_drain;
 mod m_diff;
 mod m_e2e;
 mod m_lin;
@@ -32,6 +34,8 @@ fn main() {
         "e2e" => m_e2e::run_line,
         #[cfg(eyeball_verif)]
         "conc" => m_conc::run_line,
+        #[cfg(eyeball_verif)]
+        "drain" => m_drain::run_line,
         "obs" => {
             m_obs::check_hashes();
             m_obs::run_line
